@@ -5,4 +5,5 @@ INVARIANT PsmLevelOK
 INVARIANT RollupLevelsOK
 INVARIANT NoRollupNoLevels
 INVARIANT PrefixSorted
+INVARIANT OutcomeIsF
 CHECK_DEADLOCK FALSE
